@@ -4,7 +4,7 @@ and refreshes check_result / reported_class in seeded/<name>/meta.json; writes s
 import json, os, re, sys
 latest = {}
 for f in sys.argv[1:]:
-    for l in open(f):
+    for l in open(f, errors="replace"):
         m = re.match(r"(CAUGHT|MISSED|INCONCLUSIVE\(\d+\)|PATCH-FAILED|NO-COMPILE) (C\d\d) (\S+)(?: :: ?(.*))?", l.strip())
         if m:
             latest[(m.group(2), m.group(3))] = (m.group(1), (m.group(4) or "").strip())
